@@ -63,6 +63,9 @@ type recorder struct {
 	pos    int
 	call   int
 	reads  []read
+	// fault plan: the failAt-th Read of call failCall (counted from 1) fails once with an error and delivers nothing
+	failCall, failAt, seenInCall int
+	failed                       bool
 }
 
 func newRecorder(seed uint64) *recorder {
@@ -90,13 +93,29 @@ func (r *recorder) Read(p []byte) (int, error) {
 		fmt.Fprintln(os.Stderr, "c19 fresh: recording stream exhausted")
 		os.Exit(3)
 	}
+	if r.failCall != 0 && r.call == r.failCall {
+		r.seenInCall++
+		if r.seenInCall == r.failAt && !r.failed {
+			r.failed = true
+			return 0, errInjected
+		}
+	}
 	copy(p, r.stream[r.pos:])
 	r.reads = append(r.reads, read{r.call, r.pos, len(p)})
 	r.pos += len(p)
 	return len(p), nil
 }
 
+var errInjected = fmt.Errorf("verif: the system random source fails (injected)")
+
 func (r *recorder) setCall(c int) { r.mu.Lock(); r.call = c; r.mu.Unlock() }
+
+// failRead arms the fault plan: the at-th Read made during call c fails
+func (r *recorder) failRead(c, at int) {
+	r.mu.Lock()
+	r.failCall, r.failAt, r.seenInCall, r.failed = c, at, 0, false
+	r.mu.Unlock()
+}
 
 func (r *recorder) nreads() int { r.mu.Lock(); defer r.mu.Unlock(); return len(r.reads) }
 
@@ -202,22 +221,35 @@ func fresh(seed int64, srpCalls int, out string, streamSeed uint64) {
 		ige.EncryptMessageWithTempKeys(make([]byte, 40+k%16), n1, n2)
 		fmt.Fprintf(f, "P\t%d\tpadding\t%d\n", c, len(rec.reads)-before)
 	}
-	// SRP: fixed group; a is recovered from the Reads of the call by g^a mod p = A
+	// SRP: three groups in turn - a 2048-bit modulus with g = 3, a 1536-bit modulus (B sent left-padded to 256 bytes, as the
+	// length check requires) with g = 3, a 2048-bit modulus with g = 2; a is recovered from the Reads of the call by
+	// g^a mod p = A.  Whatever the group, the ephemeral must be bytes the source delivered during this call.
 	r := vc.NewRng(uint64(seed))
-	p := r.Bytes(256)
-	p[0] |= 0x80
-	p[255] |= 1
-	pBig := new(big.Int).SetBytes(p)
-	ap := &telegram.AccountPassword{
-		CurrentAlgo: &telegram.PasswordKdfAlgoSHA256SHA256PBKDF2HMACSHA512iter100000SHA256ModPow{
-			Salt1: r.Bytes(8), Salt2: r.Bytes(16), G: 3, P: p},
-		SRPB:  new(big.Int).Sub(pBig, big.NewInt(12345)).Bytes(),
-		SRPID: 1,
+	type srpGroup struct {
+		g    int64
+		pBig *big.Int
+		ap   *telegram.AccountPassword
 	}
+	var groups []srpGroup
+	for gi, spec := range [][2]int{{256, 3}, {192, 3}, {256, 2}} {
+		p := r.Bytes(spec[0])
+		p[0] |= 0x80
+		p[len(p)-1] |= 1
+		pBig := new(big.Int).SetBytes(p)
+		groups = append(groups, srpGroup{int64(spec[1]), pBig, &telegram.AccountPassword{
+			CurrentAlgo: &telegram.PasswordKdfAlgoSHA256SHA256PBKDF2HMACSHA512iter100000SHA256ModPow{
+				Salt1: r.Bytes(8), Salt2: r.Bytes(16), G: int32(spec[1]), P: p},
+			SRPB:  pad(new(big.Int).Sub(pBig, big.NewInt(12345)), 256),
+			SRPID: int64(gi + 1),
+		}})
+	}
+	srpN := 0
 	srp := func() {
 		c := next()
+		grp := groups[srpN%len(groups)]
+		srpN++
 		before := len(rec.reads)
-		res, err := telegram.GetInputCheckPassword("correct horse", ap)
+		res, err := telegram.GetInputCheckPassword("correct horse", grp.ap)
 		o, ok := res.(*telegram.InputCheckPasswordSRPObj)
 		if err != nil || !ok {
 			fmt.Fprintln(os.Stderr, "GetInputCheckPassword:", err)
@@ -228,7 +260,7 @@ func fresh(seed int64, srpCalls int, out string, streamSeed uint64) {
 			for off := rd.off; off+256 <= rd.off+rd.n && tries < 600; off++ {
 				tries++
 				a := rec.stream[off : off+256]
-				if bytes.Equal(pad(new(big.Int).Exp(big.NewInt(3), new(big.Int).SetBytes(a), pBig), 256), o.A) {
+				if bytes.Equal(pad(new(big.Int).Exp(big.NewInt(grp.g), new(big.Int).SetBytes(a), grp.pBig), 256), o.A) {
 					hand("H", "srp_a", c, a)
 					return
 				}
